@@ -1227,6 +1227,11 @@ pub fn check_c06(tier: &str) -> i32 {
     // two frames back to back, and a frame followed by a corrupted one
     streams.push(("read-holding+write-regs".into(), [reqs[2].1.clone(), reqs[7].1.clone()].concat()));
     streams.push(("write-coils+read-coils(bad crc)".into(), [reqs[6].1.clone(), flip(&reqs[0].1, &[9])].concat()));
+    // pipelined frames that fill the receive buffer: a short frame, a maximum-size frame and more
+    let max_regs = rtu_frame(1, &write_multi_pdu(16, 0, 123, 246, &(0..246).map(|i| (i * 3 + 1) as u8).collect::<Vec<u8>>()));
+    streams.push(("read-coils+write-regs-max".into(), [reqs[0].1.clone(), max_regs.clone()].concat()));
+    streams.push(("read-coils+write-coils-max+read-holding".into(), [reqs[0].1.clone(), reqs[9].1.clone(), reqs[2].1.clone()].concat()));
+    streams.push(("write-regs-max+write-regs-max+read-input".into(), [max_regs.clone(), max_regs, reqs[3].1.clone()].concat()));
     let st = parallel(streams.len(), |i, st| {
         server_stream_job("C06", &cfg, &streams[i].0, &streams[i].1, bound, st);
     });
